@@ -638,8 +638,9 @@ Section Step2.
     assert (Hparts : wfq (Lambda ps body) = true /\ wfq_all args = true /\ wfq_all kwv = true).
     { cbn [wfq] in Hw |- *. apply andb_true_iff in Hw. destruct Hw as [Hw Hk]. apply andb_true_iff in Hw. tauto. }
     destruct Hparts as (Hl & Ha & Hk). pose proof (proj2 (proj1 (wfq_lam_iff ps body) Hl)) as Hb.
-    destruct (bind_lambda_call ps args kwn kwv) as [given|] eqn:Eb.
-    - pose proof (bind_lambda_call_wfq _ _ _ _ _ Eb Ha Hk) as Hg.
+    destruct (if existsb is_starred args then None else bind_lambda_call ps args kwn kwv) as [given|] eqn:Eb0.
+    - assert (Eb : bind_lambda_call ps args kwn kwv = Some given) by (destruct (existsb is_starred args); [discriminate | exact Eb0]).
+      pose proof (bind_lambda_call_wfq _ _ _ _ _ Eb Ha Hk) as Hg.
       pose proof (mapM_post f IH st bd given c Hst Hg) as H.
       destruct (mapM (simp f st bd) c given) as [[args' c1]| | |]; cbn [sbind] in *; auto.
       destruct H as [Hargs' _].
